@@ -612,7 +612,9 @@ func (fr *Framer) checkFrameOrder(fh FrameHeader) error {
 	}
 
 	switch fh.Type {
-	case FrameHeaders, FrameContinuation:
+	case FrameHeaders, FrameContinuation, FramePushPromise:
+		// FlagHeadersEndHeaders, FlagContinuationEndHeaders and
+		// FlagPushPromiseEndHeaders share the same bit.
 		if fh.Flags.Has(FlagHeadersEndHeaders) {
 			fr.lastHeaderStream = 0
 		} else {
